@@ -755,7 +755,7 @@ pub fn run(ctx: &mut Ctx) {
     let avoid = ctx.avoid(SIG_REJECT) && ctx.is_generate();
     ctx.campaign("scripts", CampaignCfg::new(t.pick(480, 10_000)).shards(16).shrink_iters(6), strategy, move |c: &Case| run_case_with(c, avoid));
     ctx.campaign("clean-opens", CampaignCfg::new(t.pick(240, 5_000)).shards(16).shrink_iters(6), clean_strategy, move |c: &Case| run_case_with(c, avoid));
-    ctx.campaign("rogue-remote", CampaignCfg::new(t.pick(160, 4_000)).shards(16).shrink_iters(6), super::c11_rogue::strategy, super::c11_rogue::run_case);
+    ctx.campaign("rogue-remote", CampaignCfg::new(t.pick(160, 1_500)).shards(16).shrink_iters(6), super::c11_rogue::strategy, super::c11_rogue::run_case);
     ctx.campaign("silent-peer", CampaignCfg::new(t.pick(96, 2_000)).shards(16).shrink_iters(4), silent_strategy, move |c: &Case| run_case_with(c, avoid));
     ctx.campaign("late-validation", CampaignCfg::new(t.pick(16, 320)).shards(16).shrink_iters(1), late_validation_strategy, move |c: &Case| run_case_with(c, avoid));
     ctx.campaign("stale-validation", CampaignCfg::new(t.pick(160, 3_000)).shards(16).shrink_iters(6), stale_strategy, move |c: &Case| run_case_with(c, avoid));
